@@ -1,0 +1,46 @@
+//go:build verif
+
+// Contracts of the failure detector's per-node table (C12, C20) for the deductive
+// verifier in /verif (vcgo). Comment-only; compiled only with -tags verif.
+
+package gossip
+
+//@ monitor accrualFailureDetector.mu level 35 self d guards accrualFailureDetector.windows inv fdInv(d)
+
+// Every known node has its own window (no two share a window, a sample buffer
+// or a backing array), and every stored window has at least one sample.
+//@ pure fdInv(d *accrualFailureDetector) bool = d.windows != nil && allocated(d.windows) && d.bootstrapInterval >= 1 && d.sampleSize >= 1 && d.sampleSize <= 2147483647
+//@    && (forall id string {d.windows[id]} :: id in d.windows ==> d.windows[id] != nil && allocated(d.windows[id]) && awInv(d.windows[id]) && allocated(d.windows[id].intervals.intervals) && !d.windows[id].lastTimestamp.IsZero() && d.windows[id].bootstrapInterval == d.bootstrapInterval)
+//@    && (forall a string, b string {d.windows[a], d.windows[b]} :: a in d.windows && b in d.windows && a != b ==> d.windows[a] != d.windows[b] && d.windows[a].intervals != d.windows[b].intervals && arr(d.windows[a].intervals.intervals) != arr(d.windows[b].intervals.intervals))
+
+//@ contract newArrivalWindow
+//@   serves C12
+//@   requires[args] bootstrapInterval >= 1 && sampleSize >= 1 && sampleSize <= 2147483647
+//@   ensures[fresh] result != nil && fresh(result) && fresh(result.intervals) && fresh(result.intervals.intervals)
+//@   ensures[inv] awInv(result) && result.lastTimestamp.IsZero() && result.bootstrapInterval == bootstrapInterval
+//@   opt frame true
+
+//@ contract (*accrualFailureDetector).ReportWithTimestamp
+//@   serves C12 C20
+//@   requires[env-clock] !timestamp.IsZero() && (nodeID in d.windows ==> timestamp.After(d.windows[nodeID].lastTimestamp))
+//@   ensures[recorded] nodeID in d.windows && d.windows[nodeID].lastTimestamp == timestamp
+//@   ensures[window-kept] old(nodeID in d.windows) ==> d.windows[nodeID] == old(d.windows[nodeID])
+//@   ensures[others] forall o string {d.windows[o]} :: o != nodeID ==> (o in d.windows) == old(o in d.windows) && d.windows[o] == old(d.windows[o]) && (o in d.windows ==> d.windows[o].lastTimestamp == old(d.windows[o].lastTimestamp) && d.windows[o].intervals.sum == old(d.windows[o].intervals.sum) && d.windows[o].intervals.mean == old(d.windows[o].intervals.mean))
+
+//@ contract (*accrualFailureDetector).SuspicionLevelAt
+//@   serves C12 C20
+//@   requires[env-clock] !timestamp.IsZero()
+//@   ensures[known] old(nodeID in d.windows) ==> result == i2f(timestamp.Sub(old(d.windows[nodeID].lastTimestamp))) / old(d.windows[nodeID].intervals.mean) && d.windows[nodeID] == old(d.windows[nodeID])
+//@   ensures[first-sight] !old(nodeID in d.windows) ==> nodeID in d.windows && d.windows[nodeID].lastTimestamp == timestamp && result == i2f(timestamp.Sub(timestamp)) / d.windows[nodeID].intervals.mean
+//@   ensures[others] forall o string {d.windows[o]} :: o != nodeID ==> (o in d.windows) == old(o in d.windows) && d.windows[o] == old(d.windows[o])
+
+//@ contract (*accrualFailureDetector).Remove
+//@   serves C12 C11 C20
+//@   modifies entries(d.windows)
+//@   ensures[forgotten] !(nodeID in d.windows)
+//@   ensures[others] forall o string {d.windows[o]} :: o != nodeID ==> (o in d.windows) == old(o in d.windows) && d.windows[o] == old(d.windows[o])
+
+//@ contract newAccrualFailureDetector
+//@   serves C12
+//@   requires[args] bootstrapInterval >= 1 && sampleSize >= 1 && sampleSize <= 2147483647
+//@   ensures[fresh] result != nil && fresh(result) && fdInv(result) && (forall id string :: !(id in result.windows))
